@@ -159,7 +159,14 @@ let rec run_one op t : string * string =
   | _ -> raise Not_found
 
 let run_case op t =
-  if op <> "row" && op <> "rox" then run_one op t
+  if op = "ctbits" then begin
+    (* the constant-evaluated table: the legs of `bits` for every listed value *)
+    let ty = next_str t in
+    let vals = t.rest in
+    let legs = List.map (fun v -> run_one "bits" { rest = [ ty; v ] }) vals in
+    (String.concat " ; " (List.map fst legs), String.concat " ; " (List.map snd legs))
+  end
+  else if op <> "row" && op <> "rox" then run_one op t
   else begin
     let lo = next_int t in
     let hi = next_int t in
